@@ -13,7 +13,9 @@ RULE = ('(a) bounded complete sweep: for each base scenario (transport x timeout
         'drain by read_nonblocking(size, T) loop, expect(EOF) or read(). Oracle: concatenation of everything returned == kernel '
         'log of what reached the descriptor, EOF only after the last byte (lost tail / duplicate / corruption are separate '
         'clauses), EOF arrives within 3 virtual s of the peer ending, every read <= size, socket timeout unchanged after every '
-        'call. Non-trivial: peer wrote >= 1 byte; distinct by trace digest')
+        'call (the application may re-time its socket between reads). Added later: unicode mode with multi-byte payloads, '
+        'Thread.is_alive() as a pre-emption point, EINTR, processes with > 1024 descriptors where select() raises (use_poll=True). '
+        'Non-trivial: peer wrote >= 1 byte; distinct by trace digest')
 
 ASSUME = ['complete writes on blocking descriptors; peer death latency (descriptors closed -> reapable) <= 20 ms',
           'pty output queued before the slave closes stays readable by the master (Linux behaviour, calibrated)',
